@@ -334,11 +334,11 @@ impl MultiState {
         if printing {
             drawable.adjust_last_line_count(LineAdjust::Clear(self.zombie_lines_count));
             self.zombie_lines_count = VisualLines::default();
-        } else {
-            // Track the total number of zombie lines on the screen. This must only happen once
-            // the draw is known to take place, since the zombies are reaped only after drawing.
-            self.zombie_lines_count += adjust;
         }
+
+        // Track the total number of zombie lines on the screen. This must only happen once the
+        // draw is known to take place, since the zombies are reaped only after drawing.
+        self.zombie_lines_count += adjust;
 
         let mut draw_state = drawable.state();
         draw_state.alignment = self.alignment;
@@ -366,10 +366,8 @@ impl MultiState {
 
         // The zombie lines were drawn for the last time, so make `DrawTarget` forget about them
         // so they aren't cleared on next draw.
-        if !printing {
-            self.draw_target
-                .adjust_last_line_count(LineAdjust::Keep(adjust));
-        }
+        self.draw_target
+            .adjust_last_line_count(LineAdjust::Keep(adjust));
 
         drawable
     }
